@@ -11,6 +11,7 @@ Hypothesis Hdir : forall c, Forall (fun nc => Pn (snd nc)) c -> Pn (FDir c).
 Hypothesis Hfile : forall d, Pn (FFile d).
 Hypothesis Hlink : forall t, Pn (FLink t).
 Hypothesis Hother : Pn FOther.
+Hypothesis Hbad : Pn FBadName.
 
 Fixpoint fnode_ind2 (f : fnode) : Pn f :=
   match f with
@@ -23,6 +24,7 @@ Fixpoint fnode_ind2 (f : fnode) : Pn f :=
   | FFile d => Hfile d
   | FLink t => Hlink t
   | FOther => Hother
+  | FBadName => Hbad
   end.
 End FnodeInd.
 
@@ -31,6 +33,7 @@ Definition scan_child (ign : ignorer) (rp : rpath) (mask : bool) (n : name) (ch 
   : entry * list event :=
   match ch with
   | FOther => (EUntracked, [])
+  | FBadName => (bad_name_entry mask, [])
   | _ =>
     let q := n :: rp in
     let isdir := is_fdir ch in
@@ -74,20 +77,23 @@ Qed.
 Lemma scan_child_spec ign rp mask n ch :
   let q := n :: rp in
   let d := is_fdir ch in
-  (ch = FOther /\ scan_child ign rp mask n ch = (EUntracked, []))
-  \/ (ch <> FOther /\ decide (fst (ign q d)) (snd (ign q d)) mask = None
+  (consulted_kind ch = false
+   /\ scan_child ign rp mask n ch
+      = (match ch with FBadName => bad_name_entry mask | _ => EUntracked end, []))
+  \/ (consulted_kind ch = true /\ decide (fst (ign q d)) (snd (ign q d)) mask = None
       /\ scan_child ign rp mask n ch = (EUntracked, [EvIgnore q d]))
-  \/ (ch <> FOther /\ exists mask', decide (fst (ign q d)) (snd (ign q d)) mask = Some mask'
+  \/ (consulted_kind ch = true /\ exists mask', decide (fst (ign q d)) (snd (ign q d)) mask = Some mask'
       /\ scan_child ign rp mask n ch
          = (fst (scan_node ign q mask' ch), EvIgnore q d :: snd (scan_node ign q mask' ch))).
 Proof.
-  intros q d. subst q d. destruct ch as [c|dg|t|]; [| | |left; split; reflexivity]; right;
+  intros q d. subst q d.
+  destruct ch as [c|dg|t| |]; [| | |left; split; reflexivity|left; split; reflexivity]; right;
     unfold scan_child; cbn [is_fdir];
     match goal with |- context [ign ?q ?d] => destruct (ign q d) as [st cont] end; cbn [fst snd];
     (destruct (decide st cont mask) as [mask'|];
-     [right; split; [discriminate|]; exists mask'; split; [reflexivity|];
+     [right; split; [reflexivity|]; exists mask'; split; [reflexivity|];
       match goal with |- context [scan_node ign ?q ?m ?ch] => destruct (scan_node ign q m ch) end; reflexivity
-     |left; split; [discriminate|]; split; reflexivity]).
+     |left; split; [reflexivity|]; split; reflexivity]).
 Qed.
 
 Fixpoint entries_list (rp : rpath) (l : list (name * entry)) : list (rpath * entry) :=
@@ -209,7 +215,7 @@ Proof. unfold touched_ok, touched_list. rewrite fnodes_dir. reflexivity. Qed.
 
 Lemma fnodes_below g : forall rp v f, In (v, f) (fnodes rp g) -> Below rp v.
 Proof.
-  induction g as [c IH| | |] using fnode_ind2; intros rp v f H; try (cbn in H; destruct H).
+  induction g as [c IH| | | |] using fnode_ind2; intros rp v f H; try (cbn in H; destruct H).
   rewrite fnodes_dir in H. induction c as [|[m x] tl IHl]; [destruct H|].
   inversion IH as [|? ? Hx Htl]; subst. cbn [fnodes_list] in H.
   destruct H as [[= <- <-]|H]; [apply Below_child|].
@@ -252,9 +258,9 @@ Lemma scan_reads_ok node :
   forall rp mask v,
     In (EvRead v) (snd (scan_node ign rp mask node)) -> v = rp \/ touched_ok rp node v.
 Proof.
-  induction node as [c IHc|d|t|] using fnode_ind2; intros rp mask v Hin.
+  induction node as [c IHc|d|t| |] using fnode_ind2; intros rp mask v Hin.
   2,3: cbn in Hin; destruct Hin as [[= <-]|[]]; left; reflexivity.
-  2: destruct Hin.
+  2,3: destruct Hin.
   rewrite scan_node_dir in Hin.
   destruct (scan_list ign rp mask c) as [es evs] eqn:Hsl. cbn [snd] in Hin.
   destruct Hin as [[= <-]|Hin]; [left; reflexivity|right].
@@ -282,11 +288,11 @@ Lemma scan_entries_ok node :
   forall rp mask q e,
     In (q, e) (entries rp (fst (scan_node ign rp mask node))) ->
     (exists f, In (q, f) (fnodes rp node)
-               /\ (f <> FOther -> prunedb q (is_fdir f) = true -> e = EUntracked))
+               /\ (consulted_kind f = true -> prunedb q (is_fdir f) = true -> e = EUntracked))
     /\ (forall a, Below rp a -> Below a q -> prunedb a true = false).
 Proof.
-  induction node as [c IHc|d|t|] using fnode_ind2; intros rp mask q e Hin;
-    try (cbn in Hin; destruct Hin).
+  induction node as [c IHc|d|t| |] using fnode_ind2; intros rp mask q e Hin;
+    try (cbn in Hin; destruct Hin); try (destruct mask; cbn in Hin; destruct Hin).
   rewrite scan_node_dir in Hin. rewrite fnodes_dir.
   destruct (scan_list ign rp mask c) as [es evs] eqn:Hsl. cbn [fst] in Hin.
   assert (Hin' : In (q, e) (entries_list rp es)).
@@ -300,13 +306,13 @@ Proof.
     injection Hsl as <- <-. cbn [entries_list] in Hin.
     assert (Htl' : In (q, e) (entries_list rp es') ->
                    (exists f, In (q, f) (fnodes_list rp ((n, ch) :: tl))
-                              /\ (f <> FOther -> prunedb q (is_fdir f) = true -> e = EUntracked))
+                              /\ (consulted_kind f = true -> prunedb q (is_fdir f) = true -> e = EUntracked))
                    /\ (forall a, Below rp a -> Below a q -> prunedb a true = false)).
     { intros H. destruct (IHl es' evs' eq_refl H) as [(f & Hf & Hp) Hq]. split; [|exact Hq].
       exists f. split; [|exact Hp]. cbn [fnodes_list]. apply in_or_app. right. exact Hf. }
-    assert (Hself : forall e', (ch <> FOther -> prunedb (n :: rp) (is_fdir ch) = true -> e' = EUntracked) ->
+    assert (Hself : forall e', (consulted_kind ch = true -> prunedb (n :: rp) (is_fdir ch) = true -> e' = EUntracked) ->
                     (exists f, In (n :: rp, f) (fnodes_list rp ((n, ch) :: tl))
-                              /\ (f <> FOther -> prunedb (n :: rp) (is_fdir f) = true -> e' = EUntracked))
+                              /\ (consulted_kind f = true -> prunedb (n :: rp) (is_fdir f) = true -> e' = EUntracked))
                     /\ (forall a, Below rp a -> Below a (n :: rp) -> prunedb a true = false)).
     { intros e' He'. split.
       - exists ch. split; [left; reflexivity|exact He'].
@@ -316,8 +322,11 @@ Proof.
         + exact (Below_irrefl _ (Below_trans _ _ _ Hb3 Hb2)). }
     destruct (scan_child_spec ign rp mask n ch) as [[Hk H]|[(Hk & Hdec & H)|(Hk & mask' & Hdec & H)]];
       rewrite Hsc in H; injection H as -> ->.
-    + destruct Hin as [[= <- <-]|Hin]; [|cbn [entries app] in Hin; exact (Htl' Hin)].
-      apply Hself. intros Hne. congruence.
+    + destruct Hin as [[= <- <-]|Hin].
+      { apply Hself. intros Hne. congruence. }
+      assert (Hnone : entries (n :: rp) (match ch with FBadName => bad_name_entry mask | _ => EUntracked end) = []).
+      { destruct ch; try reflexivity. destruct mask; reflexivity. }
+      rewrite Hnone in Hin. cbn [app] in Hin. exact (Htl' Hin).
     + destruct Hin as [[= <- <-]|Hin]; [|cbn [entries app] in Hin; exact (Htl' Hin)].
       apply Hself. reflexivity.
     + pose proof (decide_some_not_pruned _ _ _ _ Hdec) as Hnp.
@@ -361,7 +370,7 @@ Qed.
 Theorem pruned_entry_untracked root q e :
   In (q, e) (entries [] (snapshot ign root)) ->
   exists f, In (q, f) (fnodes [] root)
-            /\ (f <> FOther -> prunedb q (is_fdir f) = true -> e = EUntracked).
+            /\ (consulted_kind f = true -> prunedb q (is_fdir f) = true -> e = EUntracked).
 Proof.
   intros Hin. unfold snapshot, scan in Hin.
   destruct (scan_entries_ok root [] false q e Hin) as [H _]. exact H.
@@ -378,7 +387,7 @@ Qed.
 (* a pruned child: exactly one untracked entry, the ignorer consulted once,
    nothing opened *)
 Theorem pruned_child rp mask n ch :
-  ch <> FOther -> prunedb (n :: rp) (is_fdir ch) = true ->
+  consulted_kind ch = true -> prunedb (n :: rp) (is_fdir ch) = true ->
   scan_child ign rp mask n ch = (EUntracked, [EvIgnore (n :: rp) (is_fdir ch)]).
 Proof.
   intros Hne Hp.
@@ -413,7 +422,7 @@ Lemma scan_node_ext ign ign' :
   (forall q d, ign q d = ign' q d) ->
   forall node rp mask, scan_node ign rp mask node = scan_node ign' rp mask node.
 Proof.
-  intros Hext node. induction node as [c IHc|d|t|] using fnode_ind2; intros rp mask; try reflexivity.
+  intros Hext node. induction node as [c IHc|d|t| |] using fnode_ind2; intros rp mask; try reflexivity.
   rewrite !scan_node_dir.
   assert (Hl : scan_list ign rp mask c = scan_list ign' rp mask c).
   { induction c as [|[n ch] tl IHl]; [reflexivity|].
